@@ -157,10 +157,19 @@ def case_of(mspec, params, jit=True):
 
 
 def solve_all(cases):
-    """lcm solutions and the documented position of every state (from the Spec's layout)"""
+    """lcm solutions and the documented position of every state (from the Spec's layout); entries that
+    the Spec marks undefined (the model leaves the supported class there: a transition leads into a
+    filter-excluded state, a -inf would be read back) are blanked out so that they are not compared"""
     ires = run_impl(cases)
     lres = run_model([{**c, "fn": "layout_map"} for c in cases])
-    return ires, lres
+    sres = run_model([{**c, "fn": "solve_spec"} for c in cases])
+    out = []
+    for i, s in zip(ires, sres):
+        if isinstance(i, list) and isinstance(s, list) and len(i) == len(s):
+            i = [{"shape": a["shape"], "data": [x if (k < len(b["data"]) and b["data"][k] is not None) else None
+                                                for k, x in enumerate(a["data"])]} for a, b in zip(i, s)]
+        out.append(i)
+    return out, lres
 
 
 def by_state(sol, lay, ren=None):
